@@ -189,6 +189,7 @@ def near_misses(rng):
     b2 = b"AIVDM,1,1,,A,1"
     out.append(b"!" + b2 + b"*" + (b"%02X" % ais.xor_all(b2)) + b",0*" + (b"%02X" % ais.xor_all(b2)))
     out.append(b"!AIVDM,1,1,,A,1*FF,0*0B")
+    out += minimal_lines(rng)
     out += field_surgery(rng, p, f)
     # an escape at the very start of the payload (the sentence-level type is read there) and alone in a fragment
     for esc in (b"^41", b"^40", b"^30", b"^7F", b"^00", b"^5e", b"^"):
@@ -197,6 +198,24 @@ def near_misses(rng):
     out += numeric_spellings(rng, p, f)
     out += padding_variants(rng, p, f)
     out += utf8_lines(rng, 12)
+    return out
+
+
+def minimal_lines(rng):
+    """The shortest lines of the language and their neighbours: empty id and channel, one payload character, one-digit
+    counts, a checksum below 0x10 written with ONE hex digit (18 bytes in all), with two and three; the same one byte
+    shorter in every field."""
+    out = []
+    for (talker, report, delim) in ((b"AI", b"VDM", b"!"), (b"AI", b"VDO", b"$"), (b"AB", b"VDM", b"!")):
+        for c in gen.ALPHABET:
+            for ch in (b"", b"A"):
+                body = talker + report + b",1,1,," + ch + b"," + bytes([c]) + b",0"
+                x = ais.xor_all(body)
+                if x < 16:
+                    out += [delim + body + b"*%X" % x, delim + body + b"*%02X" % x, delim + body + b"*%03X" % x, delim + body + b"*%x\r" % x]
+                elif rng.random() < 0.1:
+                    out += [delim + body + b"*%02X" % x, delim + body + b"*%X" % (x >> 4), delim + body + b"*%X" % (x & 15)]
+    out += [b"!AIVDM,1,1,,,,0*5D", b"!AIVDM,1,1,,,0,*6D", b"!AIVDM,1,,,,0,0*6C", b"!AIVDM,,1,,,0,0*6C", b"!AIVD,1,1,,,0,0*10"]
     return out
 
 
